@@ -187,3 +187,683 @@ Proof.
   intros Hn H3. apply (justified_spares_newest (f_max_history fl - 1)); [lia|].
   exact (run_upgrade_prunes_old K kh dresp rn ns ts sch l k i fl cid vid mani hks Hn).
 Qed.
+
+(* ================================================================== *)
+(* 2. the size of the history under concurrent pruning *)
+
+Definition not_create (e : eff) : Prop := match e with SCreate _ => False | _ => True end.
+
+Definition inb (v : nat) (l : list nat) : bool := existsb (Nat.eqb v) l.
+
+(* the revisions of a history read that have not been the target of a delete since *)
+Definition keepb (dels : list nat) (r : release) : bool := negb (inb (rev r) dels).
+Definition kept (h : list release) (dels : list nat) : list release := filter (keepb dels) h.
+
+Lemma kept_length h dels : List.length (kept h dels) = cnt (keepb dels) h.
+Proof. reflexivity. Qed.
+
+Lemma cnt_le_length f (l : list release) : cnt f l <= List.length l.
+Proof. unfold cnt. induction l as [|x t IH]; simpl; [lia|]. destruct (f x); simpl; lia. Qed.
+
+Lemma cnt_all f (l : list release) : (forall x, f x = true) -> cnt f l = List.length l.
+Proof. intros H. unfold cnt. induction l as [|x t IH]; simpl; auto. rewrite H. simpl. now f_equal. Qed.
+
+Lemma kept_nil h : kept h [] = h.
+Proof. unfold kept, keepb. induction h as [|x t IH]; simpl; auto. now f_equal. Qed.
+
+Lemma in_revs_kept v h dels :
+  In v (revs (kept h dels)) <-> In v (revs h) /\ inb v dels = false.
+Proof.
+  unfold revs, kept, keepb. rewrite !in_map_iff. split.
+  - intros [r [E Hr]]. apply filter_In in Hr. destruct Hr as [Hr Hb]. subst v.
+    split; [eauto|]. now apply negb_true_iff in Hb.
+  - intros [[r [E Hr]] Hb]. exists r. split; auto. apply filter_In. split; auto. subst v. now rewrite Hb.
+Qed.
+
+(* how many revisions the toDelete loop leaves: at most max (maxkeep, 1) *)
+Lemma prune_pick_kept dep total mk : forall t p k,
+  total = p + k + List.length t -> k + cnt (skipb dep) t <= 1 -> mk <= total - p ->
+  cnt (keepb (prune_pick t dep total mk p)) t + k <= Nat.max mk 1.
+Proof.
+  induction t as [|x t IH]; intros p k Ht Hk Hm.
+  - unfold cnt. simpl in *. lia.
+  - simpl prune_pick. destruct (Nat.eqb (total - p) mk) eqn:E.
+    + apply Nat.eqb_eq in E. rewrite cnt_all by reflexivity. simpl in *. lia.
+    + apply Nat.eqb_neq in E. rewrite cnt_cons in Hk. fold (skipb dep x). simpl in Ht.
+      destruct (skipb dep x) eqn:Es.
+      * specialize (IH p (S k)). rewrite cnt_cons.
+        assert (cnt (keepb (prune_pick t dep total mk p)) t + S k <= Nat.max mk 1) by (apply IH; lia).
+        destruct (keepb (prune_pick t dep total mk p) x); lia.
+      * specialize (IH (S p) k). rewrite cnt_cons.
+        assert (Hx : keepb (rev x :: prune_pick t dep total mk (S p)) x = false).
+        { unfold keepb, inb. simpl. now rewrite Nat.eqb_refl. }
+        rewrite Hx.
+        assert (cnt (keepb (prune_pick t dep total mk (S p))) t + k <= Nat.max mk 1) by (apply IH; lia).
+        assert (cnt (keepb (rev x :: prune_pick t dep total mk (S p))) t <= cnt (keepb (prune_pick t dep total mk (S p))) t).
+        { apply cnt_le. intros y _. unfold keepb, inb. simpl. destruct (Nat.eqb (rev y) (rev x)); simpl; auto. discriminate. }
+        lia.
+Qed.
+
+Lemma kept_after_prune h dep mk dels :
+  NoDup (revs h) ->
+  (forall v, In v (prune_pick (sort_by_rev h) dep (List.length h) mk 0) -> inb v dels = true) ->
+  List.length (kept h dels) <= Nat.max mk 1 \/ List.length h < mk.
+Proof.
+  intros Hn Hin. destruct (Nat.le_gt_cases mk (List.length h)) as [Hl|Hl]; [left|right; exact Hl].
+  rewrite kept_length.
+  etransitivity; [apply (cnt_le _ (keepb (prune_pick (sort_by_rev h) dep (List.length h) mk 0)))|].
+  { intros x _. unfold keepb. intros Hk. apply negb_true_iff in Hk. apply negb_true_iff.
+    destruct (inb (rev x) (prune_pick (sort_by_rev h) dep (List.length h) mk 0)) eqn:Ei; auto.
+    unfold inb in Ei. apply existsb_exists in Ei. destruct Ei as [w [Hw Ew]]. apply Nat.eqb_eq in Ew. subst w.
+    rewrite (Hin _ Hw) in Hk. discriminate. }
+  rewrite <- (cnt_sort _ h).
+  pose proof (prune_pick_kept dep (List.length h) mk (sort_by_rev h) 0 0) as G.
+  assert (G' : cnt (keepb (prune_pick (sort_by_rev h) dep (List.length h) mk 0)) (sort_by_rev h) + 0 <= Nat.max mk 1); [|lia].
+  apply G.
+  - now rewrite length_sort.
+  - simpl. destruct dep as [d|]; simpl.
+    + rewrite (cnt_sort (fun x => Nat.eqb (rev x) d)). now apply nodup_cnt_rev.
+    + unfold cnt. clear. induction (sort_by_rev h); simpl; auto.
+  - lia.
+Qed.
+
+(* ---- the state-carrying predicate: at every create, the latest history read of the program minus
+   the revisions it has tried to delete since holds at most [M1] revisions ---- *)
+Section PTC.
+  Variable M1 : nat.
+
+  Fixpoint ptc {A} (Q : A -> option (list release) -> list nat -> Prop)
+           (hl : option (list release)) (dels : list nat) (p : prog A) {struct p} : Prop :=
+    match p with
+    | Ret a => Q a hl dels
+    | Eff e k =>
+        match e as e' return (resp e' -> prog A) -> (option (list release) -> list nat -> resp e' -> Prop) -> Prop with
+        | SHistory => fun _ ih => forall h, ih (Some h) [] h
+        | SDelete v => fun _ ih => forall r, ih hl (v :: dels) r
+        | SCreate _ => fun _ ih =>
+            (exists h, hl = Some h /\ (NoDup (revs h) -> List.length (kept h dels) <= M1)) /\ forall r, ih hl dels r
+        | _ => fun _ ih => forall r, ih hl dels r
+        end k (fun hl' dels' r => ptc Q hl' dels' (k r))
+    end.
+
+  Lemma ptc_bind {A B} (Q : A -> option (list release) -> list nat -> Prop) (R : B -> option (list release) -> list nat -> Prop)
+        (p : prog A) (f : A -> prog B) : forall hl dels,
+    ptc Q hl dels p -> (forall a hl' dels', Q a hl' dels' -> ptc R hl' dels' (f a)) -> ptc R hl dels (bind p f).
+  Proof.
+    induction p as [a|e k IH]; simpl; intros hl dels Hp Hf; auto.
+    destruct e; simpl in *; try (intros rr; apply IH; auto).
+    destruct Hp as [Hb Hk]. split; [exact Hb|]. intros rr. apply IH; auto.
+  Qed.
+
+  Lemma ptc_of_no_create {A} (Q : A -> option (list release) -> list nat -> Prop) (p : prog A) :
+    all_eff not_create p -> (forall a hl dels, Q a hl dels) -> forall hl dels, ptc Q hl dels p.
+  Proof.
+    intros Hp HQ. induction p as [a|e k IH]; simpl; auto. destruct Hp as [He Hk]. intros hl dels.
+    destruct e; simpl in *; try contradiction; intros; apply IH; auto.
+  Qed.
+
+  Definition qtrue {A} : A -> option (list release) -> list nat -> Prop := fun _ _ _ => True.
+
+  Lemma ptc_delete_all vs : forall hl dels,
+    ptc (fun (_ : nat * serr) hl' dels' => hl' = hl /\ forall v, In v vs \/ inb v dels = true -> inb v dels' = true)
+        hl dels (delete_all vs).
+  Proof.
+    induction vs as [|v t IH]; intros hl dels; simpl.
+    - split; [reflexivity|]. intros v [[]|H]; exact H.
+    - intros e. eapply ptc_bind; [apply IH|].
+      intros a hl' dels' [-> Hin].
+      assert (G : forall w, (v = w \/ In w t) \/ inb w dels = true -> inb w dels' = true).
+      { intros w [[<-|Hw]|Hw]; apply Hin.
+        - right. unfold inb. simpl. now rewrite Nat.eqb_refl.
+        - now left.
+        - right. unfold inb in *. simpl. rewrite Hw. apply orb_true_r. }
+      destruct e; simpl; split; auto.
+  Qed.
+
+  Lemma ptc_remove_least_recent m : forall hl dels,
+    ptc (fun (_ : serr) hl' dels' => exists h, hl' = Some h /\ (NoDup (revs h) -> List.length (kept h dels') <= Nat.max m 1))
+        hl dels (remove_least_recent m).
+  Proof.
+    intros hl dels. unfold remove_least_recent. simpl. intros h.
+    destruct h as [|x h'].
+    { simpl. exists []. split; [reflexivity|]. intros _. simpl. lia. }
+    destruct (Nat.leb (List.length (x :: h')) m) eqn:E.
+    { simpl. exists (x :: h'). split; [reflexivity|]. intros _. rewrite kept_nil. apply Nat.leb_le in E. lia. }
+    apply Nat.leb_gt in E. simpl. intros ds.
+    eapply ptc_bind; [apply ptc_delete_all|].
+    intros [n e] hl' dels' [-> Hin].
+    assert (G : NoDup (revs (x :: h')) -> List.length (kept (x :: h') dels') <= Nat.max m 1).
+    { intros Hn.
+      destruct (kept_after_prune (x :: h')
+                  (match max_rev_of ds with Some d => Some (rev d) | None => None end) m dels' Hn) as [G|G]; [|exact G|lia].
+      intros v Hv. apply Hin. now left. }
+    simpl. destruct n as [|[|n]]; simpl; exists (x :: h'); split; auto.
+  Qed.
+
+  Lemma ptc_storage_create up m : Nat.max m 1 <= M1 -> forall hl dels,
+    ptc (@qtrue serr) hl dels (storage_create up (S m)).
+  Proof.
+    intros Hm hl dels. unfold storage_create.
+    eapply ptc_bind; [apply ptc_remove_least_recent|].
+    intros e hl' dels' [h [-> Hb]].
+    destruct e; simpl; try exact I;
+      (split; [exists h; split; [reflexivity|intros Hn; specialize (Hb Hn); lia]|intros; exact I]).
+  Qed.
+End PTC.
+
+(* ---- the programs: no create outside storage_create ---- *)
+Ltac nc_auto :=
+  repeat (first
+    [ exact I
+    | solve [auto with nc]
+    | match goal with H : forall _, all_eff _ _ |- _ => apply H end
+    | match goal with
+      | |- all_eff _ (Ret _) => exact I
+      | |- all_eff _ (perform _) => apply all_eff_perform; exact I
+      | |- all_eff _ (Eff _ _) => simpl; split; [exact I|intros ?]
+      | |- all_eff _ (bind _ _) => apply all_eff_bind; [|intros ?]
+      | |- all_eff _ (if ?b then _ else _) => destruct b
+      | |- all_eff _ (match ?x with _ => _ end) => destruct x
+      | |- _ /\ _ => split
+      | |- forall _, _ => intros ?
+      end ]).
+
+Lemma nc_record_release r : all_eff not_create (record_release r).
+Proof. unfold record_release. simpl. split; [exact I|]. intros; exact I. Qed.
+#[export] Hint Resolve nc_record_release : nc.
+
+Lemma nc_delete_hook_by_policy h p : all_eff not_create (delete_hook_by_policy h p).
+Proof. unfold delete_hook_by_policy. nc_auto. Qed.
+#[export] Hint Resolve nc_delete_hook_by_policy : nc.
+
+Lemma nc_delete_hooks_by_policy hs p : all_eff not_create (delete_hooks_by_policy hs p).
+Proof. induction hs as [|h t IH]; simpl; nc_auto. Qed.
+#[export] Hint Resolve nc_delete_hooks_by_policy : nc.
+
+Lemma nc_exec_hooks_loop rl ev todo : forall done, all_eff not_create (exec_hooks_loop rl ev todo done).
+Proof. induction todo as [|h t IH]; intros done; simpl; nc_auto. Qed.
+#[export] Hint Resolve nc_exec_hooks_loop : nc.
+
+Lemma nc_run_hooks fl rl ev : all_eff not_create (run_hooks fl rl ev).
+Proof. unfold run_hooks, exec_hook. nc_auto. Qed.
+#[export] Hint Resolve nc_run_hooks : nc.
+
+Lemma nc_upgrade_fail rn ns fl up created : f_atomic fl = false -> all_eff not_create (upgrade_fail rn ns fl up created).
+Proof. intros H. unfold upgrade_fail. rewrite H. nc_auto. Qed.
+
+Lemma nc_delete_all vs : all_eff not_create (delete_all vs).
+Proof. induction vs as [|v t IH]; simpl; nc_auto. Qed.
+#[export] Hint Resolve nc_delete_all : nc.
+
+Lemma nc_remove_least_recent m : all_eff not_create (remove_least_recent m).
+Proof. unfold remove_least_recent. nc_auto. Qed.
+#[export] Hint Resolve nc_remove_least_recent : nc.
+
+(* what follows a successful (or refused) create of a non-atomic upgrade *)
+Definition upgrade_tail rn ns fl (up current : release) (curres target : list res) (e : serr) : prog outcome :=
+  match e with
+  | SExists => Ret (OErr EExistsRev)
+  | SNotFound | SFail => Ret (OErr EOtherErr)
+  | SOk =>
+      pre <- run_hooks fl up PreUpgrade ;;
+      if negb pre then upgrade_fail rn ns fl up [] else
+      u <- perform (KUpdate curres target) ;;
+      if negb (fst u) then record_release current ;;; upgrade_fail rn ns fl up (snd u) else
+      w <- perform (KWait target) ;;
+      if negb w then record_release current ;;; upgrade_fail rn ns fl up (snd u) else
+      post <- run_hooks fl up PostUpgrade ;;
+      if negb post then upgrade_fail rn ns fl up (snd u) else
+      record_release (with_status current SSuperseded) ;;;
+      e2 <- perform (SUpdate (with_status up SDeployed)) ;;
+      match e2 with SOk => Ret OOk | _ => Ret (OErr EOtherErr) end
+  end.
+
+Lemma nc_upgrade_tail rn ns fl up current curres target e :
+  f_atomic fl = false -> all_eff not_create (upgrade_tail rn ns fl up current curres target e).
+Proof.
+  intros Ha. pose proof (fun c => nc_upgrade_fail rn ns fl up c Ha) as Hf.
+  unfold upgrade_tail. destruct e; nc_auto.
+Qed.
+
+(* at most one create on every path *)
+Fixpoint one_create {A} (p : prog A) : Prop :=
+  match p with
+  | Ret _ => True
+  | Eff e k =>
+      match e as e' return (resp e' -> prog A) -> (resp e' -> Prop) -> Prop with
+      | SCreate _ => fun k _ => forall r, all_eff not_create (k r)
+      | _ => fun _ ih => forall r, ih r
+      end k (fun r => one_create (k r))
+  end.
+
+Lemma one_create_of_nc {A} (p : prog A) : all_eff not_create p -> one_create p.
+Proof.
+  induction p as [a|e k IH]; simpl; auto. intros [He Hk].
+  destruct e; simpl in *; try contradiction; intros; apply IH; auto.
+Qed.
+
+Lemma one_create_bind_pre {A B} (p : prog A) (f : A -> prog B) :
+  all_eff not_create p -> (forall a, one_create (f a)) -> one_create (bind p f).
+Proof.
+  induction p as [a|e k IH]; simpl; intros Hp Hf; auto. destruct Hp as [He Hk].
+  destruct e; simpl in *; try contradiction; intros; apply IH; auto.
+Qed.
+
+Lemma one_create_bind_post {A B} (p : prog A) (f : A -> prog B) :
+  one_create p -> (forall a, all_eff not_create (f a)) -> one_create (bind p f).
+Proof.
+  induction p as [a|e k IH]; simpl; intros Hp Hf.
+  - now apply one_create_of_nc.
+  - destruct e; simpl in *; try (intros rr; apply IH; auto).
+    intros rr. apply all_eff_bind; auto.
+Qed.
+
+Lemma one_create_storage_create up mh : one_create (storage_create up mh).
+Proof.
+  unfold storage_create. destruct mh as [|m]; [simpl; intros; exact I|].
+  apply one_create_bind_pre; [apply nc_remove_least_recent|].
+  intros e. destruct e; simpl; intros; exact I.
+Qed.
+
+Section UpgradeShape.
+  Variable rn ns : string.
+  Variable fl : flags.
+  Variable cid vid : nat.
+  Variable mani : list res.
+  Variable hks : list hook.
+  Hypothesis Ha : f_atomic fl = false.
+
+  Theorem upgrade_one_create : one_create (upgrade rn ns fl cid vid mani hks).
+  Proof.
+    unfold upgrade. simpl. intros h.
+    destruct (max_rev_of h) as [last|]; [|exact I].
+    destruct (is_pending (st last)); [exact I|].
+    apply one_create_bind_pre.
+    { destruct (status_eqb (st last) SDeployed); nc_auto. }
+    intros cur. destruct cur as [current|]; [|exact I].
+    simpl. intros adopt. destruct adopt as [adopted|]; [|exact I].
+    destruct (f_dry_run fl); [exact I|].
+    apply one_create_bind_post; [apply one_create_storage_create|].
+    intros e. apply (nc_upgrade_tail rn ns fl _ current _ _ e Ha).
+  Qed.
+
+  Theorem upgrade_ptc M1 m :
+    f_max_history fl = S m -> Nat.max m 1 <= M1 ->
+    ptc M1 (@qtrue outcome) None [] (upgrade rn ns fl cid vid mani hks).
+  Proof.
+    intros Hm HM. unfold upgrade. simpl. intros h.
+    destruct (max_rev_of h) as [last|]; [|exact I].
+    destruct (is_pending (st last)); [exact I|].
+    eapply ptc_bind with (Q := qtrue).
+    { apply ptc_of_no_create; [|intros; exact I]. destruct (status_eqb (st last) SDeployed); nc_auto. }
+    intros cur hl1 dels1 _. destruct cur as [current|]; [|exact I].
+    simpl. intros adopt. destruct adopt as [adopted|]; [|exact I].
+    destruct (f_dry_run fl); [exact I|].
+    eapply ptc_bind; [rewrite Hm; apply (ptc_storage_create M1 _ m HM)|].
+    intros e hl2 dels2 _. apply ptc_of_no_create; [|intros; exact I].
+    apply (nc_upgrade_tail rn ns fl _ current _ _ e Ha).
+  Qed.
+End UpgradeShape.
+
+(* ================================================================== *)
+(* 3. the global invariant: every schedule, every cluster behaviour, any number of threads *)
+
+(* what thread [i] knows, computed from the trace: its latest history read, the revisions it has
+   tried to delete since, and the revisions created (by anybody) since that read *)
+Record pview := mkV { v_hl : option (list release); v_dels : list nat; v_since : list nat }.
+
+Definition view_own (v : pview) (c : cev) : pview :=
+  match ce_eff c as e return resp e -> pview with
+  | SHistory => fun h => mkV (Some h) [] []
+  | SDelete w => fun _ => mkV (v_hl v) (w :: v_dels v) (v_since v)
+  | _ => fun _ => v
+  end (ce_resp c).
+
+Definition view_step (i : nat) (v : pview) (c : cev) : pview :=
+  let v1 := if by_thread i c then view_own v c else v in
+  match created_rev c with
+  | Some x => mkV (v_hl v1) (v_dels v1) (v_since v1 ++ [x])
+  | None => v1
+  end.
+
+Definition view (i : nat) (tr : list cev) : pview := fold_left (view_step i) tr (mkV None [] []).
+
+Lemma view_snoc i tr c : view i (tr ++ [c]) = view_step i (view i tr) c.
+Proof. unfold view. rewrite fold_left_app. reflexivity. Qed.
+
+Lemma creations_snoc tr c :
+  creations (tr ++ [c]) = (creations tr ++ match created_rev c with Some v => [(ce_tid c, v)] | None => [] end)%list.
+Proof. rewrite creations_app. simpl. destruct (created_rev c); reflexivity. Qed.
+
+Lemma view_since_le i tr : List.length (v_since (view i tr)) <= List.length (creations tr).
+Proof.
+  induction tr as [|c tr IH] using rev_ind; [simpl; lia|].
+  rewrite view_snoc, creations_snoc, app_length. unfold view_step.
+  assert (H : List.length (v_since (if by_thread i c then view_own (view i tr) c else view i tr))
+              <= List.length (v_since (view i tr))).
+  { destruct (by_thread i c); [|lia]. unfold view_own. destruct c as [t e r o]. simpl.
+    destruct e; simpl; lia. }
+  destruct (created_rev c); simpl; [rewrite app_length; simpl|]; lia.
+Qed.
+
+(* a step that is neither a history read nor a delete of thread [i] and creates nothing leaves
+   the view alone; another thread's step only adds to [v_since] *)
+Lemma view_step_hl_dels_other i v c :
+  by_thread i c = false ->
+  v_hl (view_step i v c) = v_hl v /\ v_dels (view_step i v c) = v_dels v
+  /\ v_since (view_step i v c) = (v_since v ++ match created_rev c with Some x => [x] | None => [] end)%list.
+Proof.
+  intros H. unfold view_step. rewrite H. destruct (created_rev c); simpl; rewrite ?app_nil_r; auto.
+Qed.
+
+Section Bound.
+  Variable K : Type.
+  Variable kh : forall e : eff, K -> K * resp e * list kev.
+  Variable dresp : forall e : eff, resp e.
+  Variable A : Type.
+  Variable M1 : nat.
+  Variable n0 : nat.     (* size of the initial history *)
+
+  Definition view_ok (led : list release) (v : pview) : Prop :=
+    forall h, v_hl v = Some h ->
+      NoDup (revs h) /\ incl (revs led) (revs (kept h (v_dels v)) ++ v_since v).
+
+  Definition bound_inv (ts : list (prog A)) (s : cstate K) : Prop :=
+    NoDup (revs (c_led s))
+    /\ (forall i p, nth_error ts i = Some p ->
+          ptc M1 (@qtrue A) (v_hl (view i (c_tr s))) (v_dels (view i (c_tr s))) p)
+    /\ (forall i, view_ok (c_led s) (view i (c_tr s)))
+    /\ List.length (c_led s) <= Nat.max n0 (M1 + List.length (creations (c_tr s))).
+
+  (* monotonicity of [view_ok]: fewer stored revisions, more revisions created since *)
+  Lemma view_ok_mono led led' hl dels since extra :
+    incl (revs led') (revs led ++ extra) ->
+    view_ok led (mkV hl dels since) -> view_ok led' (mkV hl dels (since ++ extra)).
+  Proof.
+    intros Hi Hv h Hh. simpl in *. destruct (Hv h Hh) as [Hn Hincl]. split; [exact Hn|].
+    intros v Hv'. apply Hi in Hv'. rewrite !in_app_iff in *. simpl in Hincl.
+    destruct Hv' as [Hv'|Hv']; [|auto]. apply Hincl in Hv'. rewrite in_app_iff in Hv'. tauto.
+  Qed.
+
+  Lemma revs_length (l : list release) : List.length (revs l) = List.length l.
+  Proof. unfold revs. apply map_length. Qed.
+
+  Lemma remove_rev_length v (l : list release) : List.length (remove_rev v l) <= List.length l.
+  Proof. unfold remove_rev. induction l as [|x t IH]; simpl; [lia|]. destruct (negb (Nat.eqb (rev x) v)); simpl; lia. Qed.
+
+  Lemma replace_rev_length y (l : list release) : List.length (replace_rev y l) = List.length l.
+  Proof. unfold replace_rev. apply map_length. Qed.
+
+  Lemma bound_step i ts s ts' s' :
+    bound_inv ts s -> step_thread K kh dresp A i ts s = Some (ts', s') -> bound_inv ts' s'.
+  Proof.
+    intros [HN [HP [HJ HB]]] St. apply step_thread_inv in St. destruct St as [e [k [Hn [-> ->]]]].
+    assert (Hi : i < List.length ts) by (eapply nth_error_lt; eauto).
+    destruct (cstep_spec K kh dresp i e s) as [r [out [E Hs]]]. rewrite E. clear E.
+    set (c := mkCev i e r out).
+    pose proof (HP i _ Hn) as Hpi.
+    assert (Hbt : by_thread i c = true) by (unfold by_thread; simpl; apply Nat.eqb_refl).
+    (* the other threads: program unchanged, view changes only in [v_since] *)
+    assert (Hother : forall j, j <> i -> by_thread j c = false).
+    { intros j Hj. unfold by_thread. simpl. apply Nat.eqb_neq. congruence. }
+    (* closing lemma: given the new ledger, the new view of thread i and the facts about them *)
+    assert (Close : forall led',
+      NoDup (revs led') ->
+      ptc M1 (@qtrue A) (v_hl (view_step i (view i (c_tr s)) c)) (v_dels (view_step i (view i (c_tr s)) c)) (k r) ->
+      view_ok led' (view_step i (view i (c_tr s)) c) ->
+      incl (revs led') (revs (c_led s) ++ match created_rev c with Some x => [x] | None => [] end) ->
+      List.length led' <= Nat.max n0 (M1 + List.length (creations (c_tr s ++ [c]))) ->
+      bound_inv (set_nth i (k r) ts) (mkC led' (c_ks (fst (cstep K kh dresp i e s))) (c_tr s ++ [c]))).
+    { intros led' N' P' V' I' B'. unfold bound_inv. simpl.
+      split; [exact N'|]. split; [|split; [|exact B']].
+      - intros j p Hj. rewrite view_snoc. destruct (Nat.eq_dec j i) as [->|Hne].
+        + rewrite nth_error_set_nth_eq in Hj by exact Hi. inversion Hj; subst p. exact P'.
+        + rewrite nth_error_set_nth_neq in Hj by congruence.
+          destruct (view_step_hl_dels_other j (view j (c_tr s)) c (Hother j Hne)) as [-> [-> _]]. auto.
+      - intros j. rewrite view_snoc. destruct (Nat.eq_dec j i) as [->|Hne]; [exact V'|].
+        destruct (view_step_hl_dels_other j (view j (c_tr s)) c (Hother j Hne)) as [H1 [H2 H3]].
+        specialize (HJ j). destruct (view j (c_tr s)) as [hl dels since] eqn:Ev. simpl in *.
+        destruct (view_step j (mkV hl dels since) c) as [hl' dels' since']. simpl in *. subst hl' dels' since'.
+        now apply (view_ok_mono (c_led s)). }
+    destruct (is_cluster_call e) eqn:Ec.
+    - (* a cluster call: ledger and views unchanged *)
+      assert (Hcr : created_rev c = None) by (now apply created_rev_cluster).
+      assert (Hv : view_step i (view i (c_tr s)) c = view i (c_tr s)).
+      { unfold view_step. rewrite Hbt, Hcr. unfold view_own, c. simpl. destruct e; try discriminate; reflexivity. }
+      apply Close; rewrite ?Hv, ?Hcr, ?creations_snoc, ?Hcr, ?app_nil_r; auto.
+      + destruct e; try discriminate; simpl in Hpi; apply Hpi.
+      + apply incl_refl.
+    - destruct (Hs eq_refl) as [Hr [Hout _]]. clear Hs.
+      unfold c in *. clear c.
+      revert r out Hbt Hother Close Hr Hout. destruct e as [| |w|x|x|w| | | | | | |]; try discriminate; simpl in Hpi; simpl resp;
+        intros r out Hbt Hother Close Hr Hout; simpl in Hr, Hout; cbn [storage_apply fst snd];
+        match goal with |- context [(c_tr s ++ [?cc])%list] => set (c := cc) in * end.
+      + (* SHistory: the view of thread i is reset to the ledger *)
+        subst r. apply Close; simpl; auto.
+        * unfold view_step. rewrite Hbt. simpl. apply Hpi.
+        * unfold view_step. rewrite Hbt. simpl. intros h Hh. inversion Hh; subst h. split; [exact HN|].
+          rewrite kept_nil, app_nil_r. apply incl_refl.
+        * rewrite app_nil_r. apply incl_refl.
+        * rewrite creations_snoc. simpl. rewrite app_nil_r. exact HB.
+      + (* SDeployedAll *)
+        assert (Hv : view_step i (view i (c_tr s)) c = view i (c_tr s)) by (unfold view_step; rewrite Hbt; reflexivity).
+        apply Close; rewrite ?Hv; simpl; rewrite ?app_nil_r, ?creations_snoc; simpl; rewrite ?app_nil_r; auto; try apply incl_refl.
+      + (* SGet *)
+        assert (Hv : view_step i (view i (c_tr s)) c = view i (c_tr s)) by (unfold view_step; rewrite Hbt; reflexivity).
+        apply Close; rewrite ?Hv; simpl; rewrite ?app_nil_r, ?creations_snoc; simpl; rewrite ?app_nil_r; auto; try apply incl_refl.
+      + (* SCreate x *)
+        destruct Hpi as [[h [Hh Hkept]] Hk].
+        destruct (has_rev (rev x) (c_led s)) eqn:Eh; simpl in *; subst r.
+        * (* refused *)
+          assert (Hv : view_step i (view i (c_tr s)) c = view i (c_tr s)) by (unfold view_step; rewrite Hbt; reflexivity).
+          apply Close; rewrite ?Hv; simpl; rewrite ?app_nil_r, ?creations_snoc; simpl; rewrite ?app_nil_r; auto; try apply incl_refl.
+        * (* succeeded *)
+          pose proof (has_rev_false_notin _ _ Eh) as Hnot.
+          destruct (HJ i h Hh) as [Hnh Hincl].
+          assert (Hv : view_step i (view i (c_tr s)) c
+                       = mkV (v_hl (view i (c_tr s))) (v_dels (view i (c_tr s))) (v_since (view i (c_tr s)) ++ [rev x])).
+          { unfold view_step. rewrite Hbt. reflexivity. }
+          apply Close; rewrite ?Hv; simpl; auto.
+          -- rewrite revs_app. simpl. now apply NoDup_snoc.
+          -- specialize (HJ i). destruct (view i (c_tr s)) as [hl dels since]. simpl in *.
+             apply (view_ok_mono (c_led s)); auto. rewrite revs_app. apply incl_refl.
+          -- rewrite revs_app. apply incl_refl.
+          -- rewrite creations_snoc. simpl. rewrite !app_length. simpl.
+             assert (List.length (c_led s) <= M1 + List.length (creations (c_tr s))); [|lia].
+             rewrite <- revs_length.
+             etransitivity; [apply (NoDup_incl_length HN Hincl)|].
+             rewrite app_length, revs_length. specialize (Hkept Hnh).
+             pose proof (view_since_le i (c_tr s)). lia.
+      + (* SUpdate x *)
+        assert (Hv : view_step i (view i (c_tr s)) c = view i (c_tr s)) by (unfold view_step; rewrite Hbt; reflexivity).
+        destruct (has_rev (rev x) (c_led s)); simpl in *; subst r;
+          apply Close; rewrite ?Hv; simpl; rewrite ?revs_replace, ?app_nil_r, ?creations_snoc; simpl;
+          rewrite ?app_nil_r, ?replace_rev_length; auto; try apply incl_refl.
+        specialize (HJ i). intros h Hh. destruct (HJ h Hh) as [G1 G2]. split; auto. now rewrite revs_replace.
+      + (* SDelete w *)
+        assert (Hv : view_step i (view i (c_tr s)) c
+                     = mkV (v_hl (view i (c_tr s))) (w :: v_dels (view i (c_tr s))) (v_since (view i (c_tr s)))).
+        { unfold view_step. rewrite Hbt. reflexivity. }
+        assert (Hsub : forall led', (forall v, In v (revs led') -> In v (revs (c_led s)) /\ v <> w) ->
+                  view_ok led' (mkV (v_hl (view i (c_tr s))) (w :: v_dels (view i (c_tr s))) (v_since (view i (c_tr s))))).
+        { intros led' Hl h Hh. simpl in *. destruct (HJ i h Hh) as [G1 G2]. split; [exact G1|].
+          intros v Hv'. destruct (Hl v Hv') as [Hin Hne]. apply G2 in Hin. rewrite in_app_iff in *.
+          destruct Hin as [Hin|Hin]; [left|now right].
+          apply in_revs_kept in Hin. apply in_revs_kept. destruct Hin as [Hin Hb]. split; [exact Hin|].
+          unfold inb in *. simpl. rewrite Hb. apply Nat.eqb_neq in Hne. now rewrite Hne. }
+        destruct (has_rev w (c_led s)) eqn:Eh; simpl in *; subst r.
+        * apply Close; rewrite ?Hv; simpl; auto.
+          -- unfold revs, remove_rev. clear -HN. unfold revs in HN.
+             induction (c_led s) as [|y t IH]; simpl in *; [constructor|]. inversion HN; subst.
+             destruct (negb (Nat.eqb (rev y) w)); simpl; auto. constructor; auto.
+             intros Hin. apply H1. apply in_map_iff in Hin. destruct Hin as [z [Ez Hz]].
+             apply filter_In in Hz. destruct Hz as [Hz _]. apply in_map_iff. eauto.
+          -- apply Hsub. intros v Hv'. now apply revs_remove_in in Hv'.
+          -- rewrite app_nil_r. intros v Hv'. apply revs_remove_in in Hv'. tauto.
+          -- rewrite creations_snoc. simpl. rewrite app_nil_r. pose proof (remove_rev_length w (c_led s)). lia.
+        * apply Close; rewrite ?Hv; simpl; auto.
+          -- apply Hsub. intros v Hv'. split; [exact Hv'|]. intros ->.
+             apply (has_rev_false_notin _ _ Eh). exact Hv'.
+          -- rewrite app_nil_r. apply incl_refl.
+          -- rewrite creations_snoc. simpl. rewrite app_nil_r. exact HB.
+  Qed.
+
+  Theorem run_pruning_bound ts sch l k :
+    Forall (ptc M1 (@qtrue A) None []) ts -> NoDup (revs l) -> List.length l <= n0 ->
+    let res := run K kh dresp A ts sch (mkC l k []) in
+    List.length (c_led (snd res)) <= Nat.max n0 (M1 + List.length (creations (c_tr (snd res)))).
+  Proof.
+    intros HF Hn Hl res.
+    assert (G : bound_inv (fst res) (snd res)).
+    { apply (run_inv K kh dresp A bound_inv bound_step). unfold bound_inv. simpl.
+      split; [exact Hn|]. split; [|split; [|lia]].
+      - intros i p Hp. eapply Forall_nth_error; eauto.
+      - intros i h Hh. discriminate. }
+    destruct G as [_ [_ [_ G]]]. exact G.
+  Qed.
+End Bound.
+
+(* ---- every thread creates at most once, so the number of successful creates is at most the
+   number of threads ---- *)
+Section Creators.
+  Variable K : Type.
+  Variable kh : forall e : eff, K -> K * resp e * list kev.
+  Variable dresp : forall e : eff, resp e.
+  Variable A : Type.
+  Variable n : nat.
+
+  Definition creators (tr : list cev) : list nat := map fst (creations tr).
+
+  Definition oc_inv (ts : list (prog A)) (s : cstate K) : Prop :=
+    List.length ts = n
+    /\ (forall j p, nth_error ts j = Some p -> one_create p)
+    /\ NoDup (creators (c_tr s))
+    /\ (forall j, In j (creators (c_tr s)) -> exists p, nth_error ts j = Some p /\ all_eff not_create p).
+
+  Lemma oc_step i ts s ts' s' :
+    oc_inv ts s -> step_thread K kh dresp A i ts s = Some (ts', s') -> oc_inv ts' s'.
+  Proof.
+    intros [HL [HO [HN HC]]] St. apply step_thread_inv in St. destruct St as [e [k [Hn [-> ->]]]].
+    assert (Hi : i < List.length ts) by (eapply nth_error_lt; eauto).
+    destruct (cstep_spec K kh dresp i e s) as [r [out [E _]]]. rewrite E. clear E.
+    unfold oc_inv. simpl. rewrite set_nth_length. split; [exact HL|].
+    pose proof (HO i _ Hn) as Hoi.
+    assert (Hkr : one_create (k r)).
+    { destruct e; simpl in Hoi; try apply Hoi. apply one_create_of_nc. apply Hoi. }
+    split.
+    { intros j p Hj. destruct (Nat.eq_dec j i) as [->|Hne].
+      - rewrite nth_error_set_nth_eq in Hj by exact Hi. inversion Hj; subst p. exact Hkr.
+      - rewrite nth_error_set_nth_neq in Hj by congruence. eauto. }
+    unfold creators. rewrite creations_snoc, map_app. fold (creators (c_tr s)).
+    (* a thread already recorded as a creator performs no create *)
+    assert (Hspent : In i (creators (c_tr s)) -> all_eff not_create (Eff e k)).
+    { intros Hin. destruct (HC i Hin) as [p [Hp Hnc]]. rewrite Hn in Hp. inversion Hp; subst p. exact Hnc. }
+    destruct (created_rev (mkCev i e r out)) as [v|] eqn:Ecr; simpl.
+    - assert (Hec : exists x, e = SCreate x).
+      { unfold created_rev in Ecr. simpl in Ecr. destruct e; try discriminate. eauto. }
+      destruct Hec as [x ->].
+      assert (Hnew : ~ In i (creators (c_tr s))).
+      { intros Hin. destruct (Hspent Hin) as [F _]. exact F. }
+      split; [now apply NoDup_snoc|].
+      intros j Hj. rewrite in_app_iff in Hj. simpl in Hj. destruct Hj as [Hj|[<-|[]]].
+      + destruct (Nat.eq_dec j i) as [->|Hne]; [contradiction|].
+        rewrite nth_error_set_nth_neq by congruence. auto.
+      + exists (k r). split; [now apply nth_error_set_nth_eq|]. simpl in Hoi. apply Hoi.
+    - rewrite app_nil_r. split; [exact HN|].
+      intros j Hj. destruct (Nat.eq_dec j i) as [->|Hne].
+      + exists (k r). split; [now apply nth_error_set_nth_eq|]. destruct (Hspent Hj) as [_ Hk]. apply Hk.
+      + rewrite nth_error_set_nth_neq by congruence. auto.
+  Qed.
+
+  Theorem run_creates_le ts sch l k :
+    List.length ts = n -> Forall one_create ts ->
+    List.length (creations (c_tr (snd (run K kh dresp A ts sch (mkC l k []))))) <= n.
+  Proof.
+    intros HL HF.
+    assert (G : oc_inv (fst (run K kh dresp A ts sch (mkC l k []))) (snd (run K kh dresp A ts sch (mkC l k [])))).
+    { apply (run_inv K kh dresp A oc_inv oc_step). unfold oc_inv. simpl.
+      split; [exact HL|]. split; [intros j p Hj; eapply Forall_nth_error; eauto|].
+      split; [constructor|intros j []]. }
+    destruct G as [GL [_ [GN GC]]].
+    rewrite <- (map_length fst). fold (creators (c_tr (snd (run K kh dresp A ts sch (mkC l k []))))).
+    rewrite <- (seq_length n 0). apply NoDup_incl_length; [exact GN|].
+    intros j Hj. destruct (GC j Hj) as [p [Hp _]]. apply in_seq. apply nth_error_lt in Hp. lia.
+  Qed.
+End Creators.
+
+(* ---- the property-level statement ---- *)
+Definition pruning_op (N : nat) (o : op) : Prop :=
+  match o with
+  | OpUpgrade fl _ _ _ _ => f_atomic fl = false /\ 1 <= f_max_history fl <= N
+  | _ => False
+  end.
+
+Theorem pruning_bound (K : Type) (kh : forall e : eff, K -> K * resp e * list kev) (dresp : forall e, resp e)
+        (rn ns : string) (N : nat) (ops : list op) (sch : list nat) (l0 : list release) (k : K) :
+  Forall (pruning_op N) ops -> NoDup (revs l0) ->
+  let res := run K kh dresp outcome (map (op_prog_fx rn ns) ops) sch (mkC l0 k []) in
+  List.length (c_led (snd res)) <= Nat.max (List.length l0) (Nat.max (N - 1) 1 + List.length (creations (c_tr (snd res))))
+  /\ List.length (creations (c_tr (snd res))) <= List.length ops.
+Proof.
+  intros HF Hn res. split.
+  - apply (run_pruning_bound K kh dresp outcome (Nat.max (N - 1) 1) (List.length l0)); auto.
+    rewrite Forall_forall in *. intros p Hp. apply in_map_iff in Hp. destruct Hp as [o [<- Ho]].
+    specialize (HF o Ho). destruct o; simpl in HF; try contradiction. destruct HF as [Ha [H1 H2]].
+    unfold op_prog_fx, op_prog. destruct (f_max_history fl) as [|m] eqn:Em; [lia|].
+    apply (upgrade_ptc rn ns fl cid vid mani hks Ha _ m Em). lia.
+  - rewrite <- (map_length (op_prog_fx rn ns) ops).
+    apply run_creates_le; [reflexivity|].
+    rewrite Forall_forall in *. intros p Hp. apply in_map_iff in Hp. destruct Hp as [o [<- Ho]].
+    specialize (HF o Ho). destruct o; simpl in HF; try contradiction. destruct HF as [Ha _].
+    unfold op_prog_fx, op_prog. now apply upgrade_one_create.
+Qed.
+
+(* ================================================================== *)
+(* 4. examples and refutations, by computation on the object-store cluster *)
+Local Open Scope string_scope.
+Definition x_flM (n : nat) := mkFlags false false false false n false false false false 0.
+
+(* K-C09-3 (replayed on the real code, corpus): two upgrades --max-history 1 on 1:deployed 2:failed.
+   The first reads last = 2 (its revision will be 3) and prunes revision 2 inside Create; before it
+   creates 3 the second reads the history (last = 1, deployed) and creates revision 2 AGAIN; both
+   proceed and both end deployed.  The history then holds 3 = max (N-1, 1) + k records: the bound
+   of [pruning_bound] is reached. *)
+Definition x_k3_ops := [OpUpgrade (x_flM 1) 10 10 [x_cm "a" "v10"] []; OpUpgrade (x_flM 1) 11 11 [x_cm "a" "v11"] []].
+Definition x_k3_sched := [1; 1; 1; 1; 1; 0; 0; 1; 1; 0; 0; 0; 0; 0; 1; 0; 1; 0].
+
+Lemma x_k3_hyps : Forall (pruning_op 1) x_k3_ops /\ NoDup (revs x_prune_led).
+Proof. split; [repeat constructor|repeat constructor; simpl; intuition discriminate]. Qed.
+
+Lemma pruning_two_deployed_refuted :
+  let res := run_gated kstate (kube_handle "rel" "default") dead_resp outcome
+                 (map (op_prog_fx "rel" "default") x_k3_ops) x_k3_sched (mkC x_prune_led (k0 x_objs) []) in
+  outcomes outcome (fst res) = [Some OOk; Some OOk]
+  /\ map (fun r => (rev r, st r)) (c_led (snd res)) = [(1, SSuperseded); (3, SDeployed); (2, SDeployed)]
+  /\ creations (c_tr (snd res)) = [(1, 3); (0, 2)]
+  /\ List.length (c_led (snd res)) = Nat.max (1 - 1) 1 + List.length x_k3_ops.
+Proof. vm_compute. repeat split; reflexivity. Qed.
+
+(* "a pruner never deletes the revision that is deployed" holds only for what the pruner itself READ
+   as deployed ([run_upgrade_spares_deployed]); globally it is false: thread 0 computes its picks
+   while revision 3 of thread 1 is pending, thread 1 finishes (3: deployed), thread 0 deletes the
+   deployed revision 3 and creates its own revision 3; BOTH report success.  Replayed on the real
+   code (corpus). *)
+Fixpoint deleted_deployed (l : list release) (tr : list cev) : bool :=
+  match tr with
+  | [] => false
+  | c :: t =>
+      match deleted_rev c with
+      | Some v => existsb (fun r => Nat.eqb (rev r) v && status_eqb (st r) SDeployed) l
+      | None => false
+      end || deleted_deployed (fst (fst (storage_apply dead_resp (ce_eff c) l))) t
+  end.
+
+Definition x_dd_sched := ([0; 0; 0] ++ repeat 1 7 ++ [0; 0] ++ repeat 1 4)%list.
+
+Lemma pruning_deletes_deployed_refuted :
+  let res := x_run x_k3_ops x_dd_sched x_prune_led (k0 x_objs) in
+  deleted_deployed x_prune_led (c_tr (snd res)) = true
+  /\ outcomes outcome (fst res) = [Some OOk; Some OOk]
+  /\ creations (c_tr (snd res)) = [(1, 3); (0, 3)]
+  /\ map (fun r => (rev r, st r)) (c_led (snd res)) = [(1, SSuperseded); (3, SDeployed)].
+Proof. vm_compute. repeat split; reflexivity. Qed.
